@@ -6,6 +6,9 @@ props=[json.loads(l) for l in open('/verif/properties.jsonl')]
 ids=[p['id'] for p in props]
 TB="trusted base: the gosym executor written for this task (validated by `gosym selftest` and by native replay of every counterexample), golang.org/x/tools/go/ssa v0.29.0, z3 4.8.12 / z3 5.1.0 / cvc5 1.0; environment stubs of DESIGN.md §3.6; bounds as listed in the evidence file"
 checks={
+ "C11": dict(level="model_checking", ref="§5 C11",
+   text="MakeIndices, Kind and Tokenize (with strings.Split and the utf8 decoder from their own SSA) are executed symbolically on token sequences whose bytes and type bytes are SMT variables constrained only to be valid UTF-8; the round trip (values, types, entropy) and the documented index size are assertions decided for every byte value, so the byte-versus-character and uint8-truncation cases that no example-based test enumerates are covered within the stated token counts and lengths, including the 254/255/256-character boundary.",
+   technique="bounded symbolic execution of go/ssa + SMT (QF_BV), native replay"),
  "C01": dict(level="model_checking", ref="§5 C01",
    text="The real randomUint32n/randomUint32/BigEndian.Uint32 are executed symbolically with the bound n (all 2^32-1 values) and every raw source byte as SMT variables. The oracle is the definition of the uniform threshold-rejection sampler (threshold = largest multiple of n not exceeding 2^32-1, introduced by its defining property, not by the code's formula); acceptance, redraw and residue are asserted per path, and the counting facts (more than half accepted, [0,T) in bijection with [0,T/n) x [0,n)) are discharged as QF_NIA lemmas for every n. The rejection loop is unrolled to a stated number of consecutive rejections, hence bounded model checking, not proof.",
    technique="bounded symbolic execution of go/ssa + SMT (integer encoding with explicit mod 2^32 on z3 5.1/cvc5; QF_BV for the power-of-two cases), native replay"),
